@@ -5,3 +5,5 @@ import ElfiVerif.Props.C15
 import ElfiVerif.Driver
 import ElfiVerif.Model.Stats
 import ElfiVerif.Props.C13
+import ElfiVerif.Model.Rejection
+import ElfiVerif.Props.C01
